@@ -62,6 +62,10 @@ MAP_PROGS = [
 ]
 
 ELEMS = ["b", "a", "c", "ab"]
+# mixed scalars: sorted order across kinds must still be one fixed order
+MIXED = [[1, "pear", "b", 10], [2, "2", "apple"], ["x", 5, None], [1.5, "1.5", 3], [True, "TRUE", 0]]
+MIXED_PROGS = ["[...s]", "list(s)", "string(s)", "sorted(list(s))", "[x for x in s]", "def r = []; for x in s do append(r, x) end; r",
+               "string(<<<x => 1 for x in s>>>)", "def f(a...) a...; f(...s)", "first(list(s))", "string(s + 'zz')"]
 
 
 def bounds(tier):
@@ -76,11 +80,28 @@ def cells(tier, seed):
         out.append({"k": "sets", "i": i, "n": n})
     for i in range(len(MAP_PROGS)):
         out.append({"k": "maps", "i": i, "n": n})
+    for mi in range(len(MIXED)):
+        for pi in range(len(MIXED_PROGS)):
+            out.append({"k": "sets", "mixed": mi, "prog": pi, "i": -1, "n": 0})
     out.append({"k": "prng"})
     return out
 
 
+def mkscalar(x):
+    if x is None:
+        return V.NULL
+    if isinstance(x, bool):
+        return V.TRUE if x else V.FALSE
+    if isinstance(x, int):
+        return vint(x)
+    if isinstance(x, float):
+        return V.ValueDecimal(x)
+    return vstr(x)
+
+
 def set_env(n):
+    if isinstance(n, list):
+        return {"s": vset([mkscalar(x) for x in n]), "t": vset([vstr("c"), vstr("d"), vstr("a")])}
     return {"s": vset([vstr(x) for x in ELEMS[:n]]), "t": vset([vstr("c"), vstr("d"), vstr("a")])}
 
 
@@ -103,9 +124,15 @@ from ckl.interpreter import Interpreter
 from ckl.functions import get_none_environment
 import ckl.values as V
 from ckl.errors import CklRuntimeError
+def mk(x):
+    if x is None: return V.NULL
+    if isinstance(x, bool): return V.TRUE if x else V.FALSE
+    if isinstance(x, int): return V.ValueInt(x)
+    if isinstance(x, float): return V.ValueDecimal(x)
+    return V.ValueString(x)
 def vs(items):
     r = V.ValueSet()
-    for i in items: r.addItem(V.ValueString(i))
+    for i in items: r.addItem(mk(i))
     return r
 it = Interpreter(True, True)
 o = V.StringOutput(); it.setStandardOutput(o)
@@ -128,7 +155,8 @@ def hash_seed_outputs(text, n, seeds):
         env = dict(os.environ)
         env["PYTHONHASHSEED"] = str(k)
         env.pop("PYTHONPATH", None)
-        p = subprocess.run([sys.executable, "-c", SUB % (src, ELEMS[:n], text)], env=env, capture_output=True,
+        p = subprocess.run([sys.executable, "-c", SUB % (src, n if isinstance(n, list) else ELEMS[:n], text)],
+                           env=env, capture_output=True,
                            text=True, timeout=50)
         outs.setdefault(p.stdout.strip() or ("ERR " + p.stderr[-200:]), []).append(k)
         if len(outs) > 1:
@@ -140,9 +168,14 @@ def run(ctx, cell):
     k = cell["k"]
     if k == "sets":
         ctx.reach("sets")
-        text = SET_PROGS[cell["i"]]
-        key = "C12:sets[%s]" % text
-        n = cell["n"]
+        if cell["i"] < 0:
+            text = MIXED_PROGS[cell["prog"]]
+            n = MIXED[cell["mixed"]]
+            key = "C12:mixed-set%d[%s]" % (cell["mixed"], text)
+        else:
+            text = SET_PROGS[cell["i"]]
+            key = "C12:sets[%s]" % text
+            n = cell["n"]
         if ctx.symbolic:
             from symex import nondet
             try:
